@@ -59,3 +59,24 @@ Proof.
   rewrite Sk. unfold mutex_blocked, choice_claimed. rewrite M, C. simpl.
   eexists. eexists. split; [reflexivity|]. simpl. rewrite E. auto.
 Qed.
+
+(* the same for the claimant of a deferred-choice group: it still owns the claim row, so its re-plan goes through
+   (it is NOT cancelled because its own cancelled siblings have "progressed past NOT_STARTED"), and the only
+   CancelStage messages it pushes are for siblings, never for itself *)
+Theorem replan_choice_claimant s id i k st g :
+  s_status st = RUNNING -> s_plan_pending st = true -> s_bypass st = false ->
+  should_skip st = false -> s_mutex st = None -> s_choice st = Some g ->
+  claim_lookup (w_claims s) false g = Some i ->
+  exists claimed planned,
+    h_commits (start_if_ready s id i k st false) =
+      [[OClaims (w_claims s); OPut i claimed]] ++ map (fun j => c_push (MCancelStage j)) (siblings_not_started s i g) ++
+      [[OPut i planned; OMark id] ++ c_pushes (first_msgs i st) ++ []]
+    /\ s_plan_pending planned = false /\ s_ctx planned = planned_ctx s st /\ s_status planned = RUNNING
+    /\ ~ In i (siblings_not_started s i g).
+Proof.
+  intros E P B Sk M C Own. unfold start_if_ready. rewrite E, P. simpl.
+  rewrite Sk. unfold mutex_blocked. rewrite M, C. simpl.
+  unfold acquire_claim. cbn [with_claims w_claims]. rewrite Own, Nat.eqb_refl. simpl.
+  eexists. eexists. split; [reflexivity|]. simpl. rewrite E. repeat split.
+  unfold siblings_not_started. intros H. apply filter_In in H. destruct H as [_ H]. rewrite Nat.eqb_refl in H. discriminate.
+Qed.
